@@ -213,5 +213,7 @@ def run_shard(shard, ctx):
 
 
 def finish(r, tier, seed):
-    return {'helper_calls': {k: v for k, v in r.counters.items() if k.startswith('helper:_') and any(
+    from ..refcheck import flag_consistency_verdict
+    extra = flag_consistency_verdict(r, ID)
+    return {**extra, 'helper_calls': {k: v for k, v in r.counters.items() if k.startswith('helper:_') and any(
         x in k for x in ('left', 'right', 'mid', 'search', 'value', 'excel_value'))}}
